@@ -105,6 +105,7 @@ type Path struct {
 	panicMsg  string
 	known     string
 	obs       []obsRec
+	bypass    map[string]int // functions whose override is bypassed on this path right now (callBody)
 }
 
 func (p *Path) abort(msg string) pathAbort {
